@@ -421,7 +421,7 @@ def load_function(relpath, qualname, glob, cut_loops=(), local_stubs=(), report=
     ast.fix_missing_locations(mod)
     code = compile(mod, '<pyvc:%s::%s>' % (relpath, qualname), 'exec')
     ns = {}
-    g = dict(glob)
+    g = glob.copy_lazy() if hasattr(glob, 'copy_lazy') else dict(glob)     # keep late binding of inline helpers
     g['__vc_locals'] = None      # patched below: locals() of the *caller* frame
     import sys
 
